@@ -306,7 +306,7 @@ func c18jail(c *Ctx) {
 	for i := range all {
 		l := &all[i]
 		cc := l.in.(ssa.CallInstruction).Common()
-		if cc.IsInvoke() && cc.Method.Name() == "Authorize" {
+		if cc.IsInvoke() && engine.MethodName(cc.Method) == "Authorize" {
 			auth = l
 		}
 		if sc := cc.StaticCallee(); sc != nil {
